@@ -15,8 +15,8 @@ def parseProg (j : Json) : Prog :=
       | _ => { kind := .module, parent := 0 },
     occs := (arr j "occs").map fun o =>
       match asArr o with
-      | [n, r, s] => { name := asNat n, role := parseRole (asNat r), scope := asNat s }
-      | _ => { name := 0, role := .use, scope := 0 } }
+      | [n, r, s, st] => { name := asNat n, role := parseRole (asNat r), scope := asNat s, stmt := asNat st }
+      | _ => { name := 0, role := .use, scope := 0, stmt := 0 } }
 
 def handle (j : Json) : Json :=
   match str j "op" with
